@@ -22,7 +22,9 @@ Record probed := mkProbed {
   p_name : list N;                       (* DriverName() *)
   p_major : Z; p_minor : Z; p_patch : Z; (* DriverVersion(): three uint16 *)
   p_init_err : option (list N);          (* DriverInit returns nil / &kernel.Error{Message: msg} *)
-  p_log : list chunk                     (* what DriverInit writes to the io.Writer it is given *)
+  p_log : list chunk;                    (* what DriverInit writes to the io.Writer it is given *)
+  p_font : bool;                         (* a console that implements console.FontSetter *)
+  p_logo : bool                          (* a console that implements console.LogoSetter *)
 }.
 
 Record driver := mkDriver {
@@ -38,7 +40,9 @@ Inductive event :=
 | EvInit (d : N)
 | EvAttach (t c : N)                     (* t.AttachTo(c) *)
 | EvSetState (t s : N)                   (* t.SetState(s) *)
-| EvWrite (t : N) (bytes : list N).      (* bytes handed to t.Write *)
+| EvWrite (t : N) (bytes : list N)       (* bytes handed to t.Write *)
+| EvSetLogo (c : N)                      (* c.SetLogo(...) *)
+| EvSetFont (c : N).                     (* c.SetFont(...) *)
 
 Record hal := mkHal {
   h_ring : ring;                         (* kfmt.earlyPrintBuffer *)
@@ -47,16 +51,17 @@ Record hal := mkHal {
   h_tty : option N;                      (* devices.activeTTY *)
   h_active : list N;                     (* devices.activeDrivers *)
   h_numbuf : list N;                     (* kfmt.numFmtBuf *)
-  h_trace : list event                   (* newest first *)
+  h_trace : list event;                  (* newest first *)
+  h_logo_off : bool                      (* the boot command line says consoleLogo=off *)
 }.
 
-Definition set_ring st r := mkHal r (h_sink st) (h_console st) (h_tty st) (h_active st) (h_numbuf st) (h_trace st).
-Definition set_sink st s := mkHal (h_ring st) s (h_console st) (h_tty st) (h_active st) (h_numbuf st) (h_trace st).
-Definition set_console st c := mkHal (h_ring st) (h_sink st) c (h_tty st) (h_active st) (h_numbuf st) (h_trace st).
-Definition set_tty st t := mkHal (h_ring st) (h_sink st) (h_console st) t (h_active st) (h_numbuf st) (h_trace st).
-Definition set_active st a := mkHal (h_ring st) (h_sink st) (h_console st) (h_tty st) a (h_numbuf st) (h_trace st).
-Definition set_numbuf st b := mkHal (h_ring st) (h_sink st) (h_console st) (h_tty st) (h_active st) b (h_trace st).
-Definition log_event st e := mkHal (h_ring st) (h_sink st) (h_console st) (h_tty st) (h_active st) (h_numbuf st) (e :: h_trace st).
+Definition set_ring st r := mkHal r (h_sink st) (h_console st) (h_tty st) (h_active st) (h_numbuf st) (h_trace st) (h_logo_off st).
+Definition set_sink st s := mkHal (h_ring st) s (h_console st) (h_tty st) (h_active st) (h_numbuf st) (h_trace st) (h_logo_off st).
+Definition set_console st c := mkHal (h_ring st) (h_sink st) c (h_tty st) (h_active st) (h_numbuf st) (h_trace st) (h_logo_off st).
+Definition set_tty st t := mkHal (h_ring st) (h_sink st) (h_console st) t (h_active st) (h_numbuf st) (h_trace st) (h_logo_off st).
+Definition set_active st a := mkHal (h_ring st) (h_sink st) (h_console st) (h_tty st) a (h_numbuf st) (h_trace st) (h_logo_off st).
+Definition set_numbuf st b := mkHal (h_ring st) (h_sink st) (h_console st) (h_tty st) (h_active st) b (h_trace st) (h_logo_off st).
+Definition log_event st e := mkHal (h_ring st) (h_sink st) (h_console st) (h_tty st) (h_active st) (h_numbuf st) (e :: h_trace st) (h_logo_off st).
 
 (** Write calls [cs] arriving at sink [s] *)
 Definition deliver (s : sink) (cs : list chunk) (st : hal) : outcome hal :=
@@ -89,14 +94,22 @@ Definition link (st : hal) : outcome hal :=
   | _, _ => Panic NilDeref
   end.
 
-(** onDriverInit (onConsoleInit for consoles; the mock console has neither fonts nor logos) *)
-Definition on_driver_init (id : N) (k : kind) (st : hal) : outcome hal :=
-  match k with
+(** the part of onConsoleInit between [devices.activeConsole = cons] and the link: a console that
+    supports logos gets one unless the boot command line says consoleLogo=off; a console that supports
+    fonts gets one (the font named by consoleFont= if it exists, else the best fit - which font is not
+    modelled, only that SetFont is called once and the function goes on) *)
+Definition console_setup (id : N) (p : probed) (st : hal) : hal :=
+  let st := if p_logo p && negb (h_logo_off st) then log_event st (EvSetLogo id) else st in
+  if p_font p then log_event st (EvSetFont id) else st.
+
+(** onDriverInit / onConsoleInit *)
+Definition on_driver_init (id : N) (p : probed) (st : hal) : outcome hal :=
+  match p_kind p with
   | KConsole =>
       match h_console st with
       | Some _ => Ok st
       | None =>
-          let st := set_console st (Some id) in
+          let st := console_setup id p (set_console st (Some id)) in
           match h_tty st with Some _ => link st | None => Ok st end
       end
   | KTTY =>
@@ -133,7 +146,7 @@ Definition probe_one (d : driver) (st : hal) (bap : N) : outcome (hal * N) :=
           r2 <- fprintf_to hal_okFmt [] st ;;
           let '(o2, bap2) := prefix_writes prefix bap1 (fst r2) in
           st <- deliver snk o2 (snd r2) ;;
-          st <- on_driver_init (d_id d) (p_kind p) st ;;
+          st <- on_driver_init (d_id d) p st ;;
           Ok (set_active st (h_active st ++ [d_id d]), bap2)
       end
   end.
@@ -148,7 +161,8 @@ Fixpoint probe_all (ds : list driver) (st : hal) (bap : N) : outcome hal :=
 Definition detect_hardware (sorted_list : list driver) (st : hal) : outcome hal :=
   probe_all sorted_list st 0.
 
-Definition init_hal : hal := mkHal empty_ring SRing None None [] init_buf [].
+Definition init_hal : hal := mkHal empty_ring SRing None None [] init_buf [] false.
+Definition set_logo_off st b := mkHal (h_ring st) (h_sink st) (h_console st) (h_tty st) (h_active st) (h_numbuf st) (h_trace st) b.
 
 (** ---- scenario = log output before, DetectHardware, log output after ---- *)
 Inductive logop :=
@@ -185,19 +199,23 @@ Definition states (tr : list event) : list (N * N) :=
   flat_map (fun e => match e with EvSetState t s => [(t, s)] | _ => [] end) (rev tr).
 Definition tty_bytes (t : N) (tr : list event) : list N :=
   flat_map (fun e => match e with EvWrite t' b => if t' =? t then b else [] | _ => [] end) (rev tr).
+Definition logos (tr : list event) : list N :=
+  flat_map (fun e => match e with EvSetLogo c => [c] | _ => [] end) (rev tr).
+Definition fonts (tr : list event) : list N :=
+  flat_map (fun e => match e with EvSetFont c => [c] | _ => [] end) (rev tr).
 Definition other_tty_bytes (t : option N) (tr : list event) : list N :=
   flat_map (fun e => match e with
                      | EvWrite t' b => match t with Some t0 => if t' =? t0 then [] else b | None => b end
                      | _ => [] end) (rev tr).
 
 (** ---- flat encoding for the correspondence driver ----
-    case    = logops(pre) drivers sorted logops(post)
+    case    = fontopt(0 none, 1-3 an existing font, 4 unknown) logoopt(0 none, 1 consoleLogo=off, 2 other) logops(pre) drivers sorted logops(post)
     logops  = count ops ; op = 0 len bytes | 1 len bytes | 2 value(64-bit pattern)
-    drivers = count drivers ; driver = order(8-bit pattern) probe_ok kind(0 console 1 tty 2 other) name(len bytes)
+    drivers = count drivers ; driver = order(8-bit pattern) probe_ok kind(0 console 1 tty 2 other 3 console+FontSetter 4 console+LogoSetter 5 console+both) name(len bytes)
               major minor patch init_ok msg(len bytes) nlog chunks(len bytes)
     sorted  = count indices   (the order in which sort.Sort leaves the registered drivers)
     obs     = probes(count ids) inits(count ids) activeTTY+1|0 activeConsole+1|0 activeDrivers(count ids)
-              attaches(count, pairs t c) states(count, pairs t s) sink(0 | t+1) sinkbytes(count bytes)
+              attaches(count, pairs t c) states(count, pairs t s) logos(count ids) fonts(count ids) sink(0 | t+1) sinkbytes(count bytes)
               otherTTYbytes(count) ring(count bytes)         | 0xffff on panic / out of fuel *)
 Definition enc_list (l : list N) : list N := N.of_nat (length l) :: l.
 Definition enc_pairs (l : list (N * N)) : list N := N.of_nat (length l) :: flat_map (fun p => [fst p; snd p]) l.
@@ -234,9 +252,10 @@ Definition dec_driver (id : N) (l : list N) : driver * list N :=
           match r3 with
           | nlog :: r4 =>
               let '(log, r5) := dec_chunks (N.to_nat nlog) r4 in
-              let kd := if k =? 0 then KConsole else if k =? 1 then KTTY else KOther in
+              let kd := if (k =? 0) || (3 <=? k) then KConsole else if k =? 1 then KTTY else KOther in
               let p := mkProbed kd name (Z.of_N (w16 maj)) (Z.of_N (w16 mi)) (Z.of_N (w16 pa))
-                                (if iok =? 0 then Some msg else None) log in
+                                (if iok =? 0 then Some msg else None) log
+                                ((k =? 3) || (5 <=? k)) ((k =? 4) || (5 <=? k)) in
               (mkDriver id (sext 8 order) (if pok =? 0 then None else Some p), r5)
           | [] => (mkDriver id 0 None, [])
           end
@@ -260,7 +279,7 @@ Definition pick (ds : list driver) (i : N) : list driver :=
 Definition observe (st : hal) : list N :=
   let tr := h_trace st in
   enc_list (probes tr) ++ enc_list (inits tr) ++ enc_opt (h_tty st) ++ enc_opt (h_console st)
-  ++ enc_list (h_active st) ++ enc_pairs (attaches tr) ++ enc_pairs (states tr)
+  ++ enc_list (h_active st) ++ enc_pairs (attaches tr) ++ enc_pairs (states tr) ++ enc_list (logos tr) ++ enc_list (fonts tr)
   ++ (match h_sink st with SRing => [0; 0] | STTY t => (t + 1) :: enc_list (tty_bytes t tr) end)
   ++ [N.of_nat (length (other_tty_bytes (match h_sink st with SRing => None | STTY t => Some t end) tr))]
   ++ (match drain drain_fuel (h_ring st) with
@@ -269,6 +288,8 @@ Definition observe (st : hal) : list N :=
       end).
 
 Definition run_case (l : list N) : list N :=
+  let logo_off := match l with _ :: 1 :: _ => true | _ => false end in
+  let l := skipn 2 l in
   let '(n1, l1) := count_of l in
   let '(pre, l2) := dec_logops n1 l1 in
   let '(n2, l3) := count_of l2 in
@@ -277,7 +298,7 @@ Definition run_case (l : list N) : list N :=
   let sorted_list := flat_map (pick regs) idx in
   let '(n3, l6) := count_of l5 in
   let '(post, _) := dec_logops n3 l6 in
-  match scenario pre sorted_list post init_hal with
+  match scenario pre sorted_list post (set_logo_off init_hal logo_off) with
   | Ok st => observe st
   | _ => [0xffff]
   end.
